@@ -106,8 +106,10 @@ def run(ctx):
         if common.dump_tree(res2) != common.dump_tree(I.visitor.TreeTransformer().visit(res)):
             ctx.fail("resolving again changes the tree", info)
         if i % 3 == 0:
+            # the documented entry point and the inherited `visit` of the transformer, on one long-lived object
+            via_visit = rng.random() < 0.4
             hist.check((target, add_head), lambda: U(resolve_to=tmap[target], add_head=add_head),
-                       lambda r, t: common.dump_tree(r(t)), d, info)
+                       lambda r, t: common.dump_tree(r.visit(t) if via_visit else r(t)), d, info)
         reqs.append({"op": "resolve", "tree": d, "to": target, "add_head": add_head})
         exp.append(out)
     if ctx.model_ok:
